@@ -34,6 +34,9 @@ FIELDS = [
     ("C\tA\t+\tB\t-\t1\t*", None, "overlap", "cigar1"), ("C\tA\t+\tB\t-\t1\t*", None, "to_orient", "orient"),
     ("E\t*\tA+\tB-\t0\t1\t0\t1\t*", None, "sid2", "oref2"), ("S\tA\t10\t*", None, "slen", "uint"),
     ("H\tVN:Z:1.0\txz:Z:a", None, "xz", "Z"), ("L\tA\t+\tB\t-\t*\tMQ:i:3", None, "MQ", "i"),
+    # a custom record in which a would-be tag is a positional field (its value does not fit the datatype it
+    # names): the name is free for a new tag
+    ("X\tabc\txi:i:bad\tyy:i:1", "gfa2", "xi", "Z"),
 ]
 VALID_VALUES = {
     "name1": ["B", "x1", "a:b"], "seq1": ["ACGT", "*", "acgtn"], "i": ["5", "-3", "+7"], "id2": ["B", "*a", "x,y"],
